@@ -289,10 +289,6 @@ CONFIGS = [(True, 1), (False, 1), (True, 4), (False, 4)]
 
 def classify(sql, problem, res):
     """known classes of findings/C18.json; -> id or None"""
-    m = re.search(r"^select (.*?) from t (union all|union|except|intersect) select (.*?) from t$", sql)
-    if problem == "exec-error-after-describe" and m and "different number of arrays" in (res.get("err") or ""):
-        if len(m.group(1).split(",")) < len(m.group(3).split(",")):
-            return "setop-arity-not-checked"
     if problem == "a produced value's variant differs from its array type" and ("list_value(" in sql or "[" in sql):
         if re.match(r"^value type List\[Null\] differs from array type List\[.*\]$", res.get("value_err") or ""):
             return "list-scalar-loses-element-type"
@@ -505,24 +501,36 @@ def stage_sql(ctx, rng, d, gverif, gmodel):
 
     colty = {c: t for c, _, t in COLS}
     cols = [c for c, _, _ in COLS]
-    upairs = [(a, b) for a in cols for b in cols]
-    ulines = ["%s | %s" % (enc(colty[a]), enc(colty[b])) for a, b in upairs]
+    upairs = [([a], [b]) for a in cols for b in cols]
+    # several columns, and branches of different column counts (the binder must refuse those: C18_union_arity_checked)
+    upairs += [(["ci32"], ["ci32", "ci64"]), (["ci32", "ci64"], ["ci32"]), (["ci32", "ct"], ["ci32", "ct", "cb"]), (["ci8", "ci8", "ci8"], ["ci8", "ci8"])]
+    for _ in range(120 if quick else 2000):
+        la = 1 + rng.below(3)
+        lb = la if rng.chance(55) else 1 + rng.below(3)
+        upairs.append(([rng.choice(cols) for _ in range(la)], [rng.choice(cols) for _ in range(lb)]))
+    ulines = ["%s | %s" % (" ".join(enc(colty[a]) for a in l), " ".join(enc(colty[b]) for b in r)) for l, r in upairs]
     uout = common.run_model(gmodel, "union", ulines)
-    res1 = run_stmts(gverif, setup, [], ["describe select %s from t union all select %s from t" % ab for ab in upairs], chunk=600)
-    nun = 0
-    for (a, b), mo, r in zip(upairs, uout, res1):
+    kws = ["union all", "union", "union all", "except", "intersect"]
+    usql = ["select %s from t %s select %s from t" % (", ".join(l), kws[i % len(kws)] if i >= len(cols) ** 2 else "union all", ", ".join(r)) for i, (l, r) in enumerate(upairs)]
+    res1 = run_stmts(gverif, setup, [], ["describe " + x for x in usql], chunk=600)
+    nun, nun_arity = 0, 0
+    for (l, r0), x, mo, r in zip(upairs, usql, uout, res1):
         nun += 1
-        x = "select %s from t union all select %s from t" % (a, b)
         ds = desc_schema(r)
+        if len(l) != len(r0):
+            nun_arity += 1
         if mo == "err":
             if ds is not None:
-                viol.append({"kind": "set operation binds although the modelled rule finds no common type", "sql": x, "describe": ds})
+                viol.append({"kind": "set operation with different column counts is announced (bind_setop.rs must reject it)" if len(l) != len(r0)
+                             else "set operation binds although the modelled rule finds no common type", "sql": x, "stmts": setup + ["describe " + x, x], "describe": ds})
             continue
-        want = colty[a] if mo.split(":")[1] in ("n", "r") else colty[b]
+        outs = mo.split()
+        want = [colty[a] if o.split(":")[1] in ("n", "r") else colty[b] for a, b, o in zip(l, r0, outs)]
         if ds is None:
             viol.append({"kind": "set operation fails to bind although the modelled rule unifies", "sql": x, "model": mo, "result": str(r)[:300]})
-        elif ds[0][1] != want:
+        elif [c[1] for c in ds] != want:
             viol.append({"kind": "set operation output type differs from the modelled rule (bind_setop.rs)", "sql": x, "describe": ds, "model_type": want})
+    info["setop_unequal_column_counts_checked"] = nun_arity
     info["setop_types_checked"] = nun
     info["checked"] = checked
     info["seconds"] = {"probe": round(t_1 - t_0, 1), "run": round(time.time() - t_1, 1)}
@@ -534,6 +542,124 @@ def stage_sql(ctx, rng, d, gverif, gmodel):
     return {"violations": viol, "known": known, "info": info, "n": checked + len(probe) + nun,
             "distinct": len(schema_by_stmt) + len(set(json.dumps(desc_schema(r)) for r in probe if isinstance(desc_schema(r), list))),
             "sample": ok_sample}
+
+
+# ---------------------------------------------------------------- correspondence 3: the Gallina type_of
+TY_COLS = [("ci8", "i8"), ("ci16", "i16"), ("ci32", "i32"), ("ci64", "i64"), ("cb", "bool"), ("ct", "str")]
+TY_INTS = [0, 1, 5, 100, 127, 128, 200, 32767, 32768, 70000, 2147483647, 2147483648, 3000000000, 9223372036854775807]
+CMP = [("eq", "="), ("ne", "<>"), ("lt", "<"), ("le", "<="), ("gt", ">"), ("ge", ">=")]
+ARI = [("add", "+"), ("sub", "-"), ("mul", "*"), ("div", "/"), ("rem", "%")]
+
+
+def gen_typed(rng, kind, depth):
+    """-> (sql, s-expression) of a random expression meant to have the given kind (int/bool/str/any)"""
+    if kind == "any" or rng.chance(4):
+        kind = rng.choice(["int", "int", "bool", "str"])
+    if depth <= 0 or rng.chance(25):
+        if rng.chance(8):
+            return "null", "(null)"
+        if kind == "int":
+            if rng.chance(55):
+                i = rng.below(4)
+                return TY_COLS[i][0], "(col %d)" % i
+            z = rng.choice(TY_INTS)
+            return str(z), "(int %d)" % z
+        if kind == "bool":
+            if rng.chance(70):
+                return "cb", "(col 4)"
+            b = rng.choice(["true", "false"])
+            return b, "(%s)" % b
+        if rng.chance(70):
+            return "ct", "(col 5)"
+        return "'a'", "(str)"
+    if kind == "int":
+        r = rng.below(10)
+        if r < 6:
+            (a, xa), (b, xb) = gen_typed(rng, "int", depth - 1), gen_typed(rng, "int", depth - 1)
+            op = rng.choice(ARI)
+            return "(%s %s %s)" % (a, op[1], b), "(arith %s %s %s)" % (op[0], xa, xb)
+        if r < 7:
+            i = rng.below(4)
+            return "(-%s)" % TY_COLS[i][0], "(neg (col %d))" % i
+    if kind == "bool":
+        r = rng.below(10)
+        if r < 3:
+            k = rng.choice(["int", "int", "str", "bool"])
+            (a, xa), (b, xb) = gen_typed(rng, k, depth - 1), gen_typed(rng, k, depth - 1)
+            op = rng.choice(CMP)
+            return "(%s %s %s)" % (a, op[1], b), "(cmp %s %s %s)" % (op[0], xa, xb)
+        if r < 4:
+            k = rng.choice(["int", "str", "bool"])
+            (a, xa), (b, xb) = gen_typed(rng, k, depth - 1), gen_typed(rng, k, depth - 1)
+            n = rng.below(2)
+            return "(%s is %sdistinct from %s)" % (a, "not " if n else "", b), "(dist %d %s %s)" % (n, xa, xb)
+        if r < 6:
+            (a, xa), (b, xb) = gen_typed(rng, "bool", depth - 1), gen_typed(rng, "bool", depth - 1)
+            w = rng.choice(["and", "or"])
+            return "(%s %s %s)" % (a, w, b), "(%s %s %s)" % (w, xa, xb)
+        if r < 7:
+            a, xa = gen_typed(rng, "bool", depth - 1)
+            return "(not %s)" % a, "(not %s)" % xa
+        if r < 8:
+            a, xa = gen_typed(rng, "any", depth - 1)
+            n = rng.below(2)
+            return "(%s is %snull)" % (a, "not " if n else ""), "(isnull %d %s)" % (n, xa)
+        if r < 9:
+            k = rng.choice(["int", "str"])
+            a, xa = gen_typed(rng, k, depth - 1)
+            es = [gen_typed(rng, k, 0) for _ in range(1 + rng.below(3))]
+            n = rng.below(2)
+            return "(%s %sin (%s))" % (a, "not " if n else "", ", ".join(e for e, _ in es)), "(in %d %s (%s))" % (n, xa, " ".join(x for _, x in es))
+    # CASE of the requested kind
+    nb = 1 + rng.below(2)
+    brs = [(gen_typed(rng, "bool", depth - 1), gen_typed(rng, kind, depth - 1)) for _ in range(nb)]
+    els = gen_typed(rng, kind, depth - 1)
+    return ("(case %s else %s end)" % (" ".join("when %s then %s" % (c[0], t[0]) for c, t in brs), els[0]),
+            "(case (%s) %s)" % (" ".join("(%s %s)" % (c[1], t[1]) for c, t in brs), els[1]))
+
+
+def stage_typeof(ctx, rng, gverif, gmodel):
+    """engine's announced type (DESCRIBE) == extracted type_of, for random expressions of the modelled core"""
+    n = 2500 if ctx["tier"] == "quick" else 40000
+    exprs = []
+    seen = set()
+    for _ in range(n):
+        sql, sx = gen_typed(rng, "any", 1 + rng.below(3))
+        if sql not in seen:
+            seen.add(sql)
+            exprs.append((sql, sx))
+    ctxs = ",".join(t for _, t in TY_COLS)
+    mout = common.run_model(gmodel, "typeof", ["%s %s" % (ctxs, sx) for _, sx in exprs], timeout=600)
+    cols = ", ".join("%s %s" % (c, {"i8": "tinyint", "i16": "smallint", "i32": "int", "i64": "bigint", "bool": "boolean", "str": "text"}[t]) for c, t in TY_COLS)
+    setup = ["create temp table t (%s)" % cols]
+    res = run_stmts(gverif, setup, [], ["describe select %s from t" % sql for sql, _ in exprs], chunk=500)
+    # aggregates
+    aggs = [(f, c, t) for f in ("sum", "min", "max", "count", "bool_and", "bool_or") for c, t in TY_COLS] + [("count_star", "*", "i8")]
+    amod = common.run_model(gmodel, "aggtype", ["%s %s" % (f, t) for f, _, t in aggs])
+    ares = run_stmts(gverif, setup, [], ["describe select %s from t" % ("count(*)" if f == "count_star" else "%s(%s)" % (f, c)) for f, c, _ in aggs], chunk=500)
+    viol, stats, samples = [], {"agree": 0, "model_untyped_engine_binds": 0, "model_typed_engine_rejects": 0, "both_reject": 0}, {}
+    distinct = set()
+    for (sql, sx), m, r in list(zip(exprs, mout, res)) + [(("count(*)" if f == "count_star" else "%s(%s)" % (f, c), "agg"), m, r) for (f, c, _), m, r in zip(aggs, amod, ares)]:
+        ds = desc_schema(r)
+        eng = ds[0][1] if isinstance(ds, list) and len(ds) == 1 else None
+        if eng is None and m == "none":
+            k = "both_reject"
+        elif eng is None:
+            k = "model_typed_engine_rejects"
+        elif m == "none":
+            k = "model_untyped_engine_binds"
+        elif eng == m:
+            k = "agree"
+            distinct.add((m, sx[:24]))
+        else:
+            k = None
+            viol.append({"kind": "the engine announces a type different from the modelled type_of (model/Typing.v)", "sql": "select %s from t" % sql,
+                         "stmts": setup + ["describe select %s from t" % sql], "engine_type": eng, "model_type": m, "model_expr": sx})
+        if k:
+            stats[k] += 1
+            if k != "agree" and len(samples.setdefault(k, [])) < 4:
+                samples[k].append({"sql": sql, "engine": eng or (r.get("err") or "")[:120], "model": m})
+    return {"violations": viol, "stats": stats, "samples": samples, "n": len(exprs) + len(aggs), "distinct": len(distinct)}
 
 
 def split_top(body):
@@ -572,7 +698,7 @@ def run(ctx):
     proof_broken = (not pr["ok"]) or bool(bad_assum) or bool(audit)
     discharged = 0 if proof_broken else len(obligations)
     t1 = time.time()
-    ties, multi, s1, s2 = [], 0, None, None
+    ties, multi, s1, s2, s3 = [], 0, None, None, None
     t2 = t3 = t1
     try:
         gmodel = common.build_ocaml("typing")
@@ -584,7 +710,10 @@ def run(ctx):
         s1 = stage_resolve(ctx, rng, d, gtyping, gmodel)
         t2 = time.time()
         s2 = stage_sql(ctx, rng, d, gverif, gmodel)
+        s3 = stage_typeof(ctx, rng, gverif, gmodel)
         t3 = time.time()
+        for v in s3["violations"][:40]:
+            out["violations"].append({"what": v["kind"], "replay": v, "no_input": False})
         for m in s1["mismatches"][:30]:
             out["violations"].append({"what": "real find_exact/find_candidates differs from the model (model/Resolve.v)", "replay": m, "no_input": False})
         # a genuine tie: the tuple is the witness; show what the real binder does with it
@@ -620,8 +749,9 @@ def run(ctx):
                          "gverif sql (schema / batch_types / value_err observation)",
                          "the typing of whole queries (Expression::datatype, bind-time return types incl. decimal (p,s)) is NOT modelled: it is covered by the DESCRIBE == schema == arrays == values correspondence only"],
         "theorems": obligations,
-        "evaluations": (s1["n"] if s1 else 0) + (s2["n"] if s2 else 0),
-        "distinct_nontrivial": (s1["distinct"] if s1 else 0) + (s2["distinct"] if s2 else 0),
+        "evaluations": (s1["n"] if s1 else 0) + (s2["n"] if s2 else 0) + (s3["n"] if s3 else 0),
+        "distinct_nontrivial": (s1["distinct"] if s1 else 0) + (s2["distinct"] if s2 else 0) + (s3["distinct"] if s3 else 0),
+        "type_of_vs_engine": {k: v for k, v in (s3 or {}).items() if k in ("stats", "samples", "n")},
         "rule": "resolve: one evaluation = one (function set, argument tuple) resolved by the real find_exact/find_candidates and by the extracted model "
                 "(all tuples of arity <= 2 over 27 type ids + 7 literal classes, literal boundary values, sampled arity 3-5); compared: exact index, the full candidate list "
                 "(index, total score, cast vector) and that the real first candidate is one of the model's maximal ones; distinct = distinct (function, outcome prefix). "
